@@ -202,7 +202,7 @@ def native_batch(reps, workdir, tier, seed, jobs=6, extra_flags=(), fexc=False):
             sub = ks[ci:ci + 120]
             extra = list(extra_flags) + ([] if fexc else ['-fno-exceptions'])
             if g.startswith('emu'): extra.append('-DXSIMD_WITH_EMULATED=1')
-            flags = [f for f in gen.flags_for(g) if f != '-ferror-limit=0'] + extra
+            flags = gen.native_flags(g) + extra
             jobl.append((os.path.join(workdir, 'nat_%s_%d' % (re.sub(r'\W', '_', g), ci // 120)), sub, inputs, flags))
     where = {}
     for job in jobl:
